@@ -1,29 +1,41 @@
 ----------------------------- MODULE DepLookup_MC -----------------------------
 (* Model: every configuration of the decision table (system version x provider x style x wrap_mode x      *)
-(* force_fallback_for x what happened before x reading of the open corner), followed by every sequence of *)
-(* up to MaxLookups lookups with arbitrary arguments.  The laws of property C10 are invariants that       *)
-(* quantify over the arguments of the *next* lookup in every reachable state, so the whole cross product  *)
-(* is covered without a history variable.                                                                  *)
+(* force_fallback_for x what happened before x readings of the open corners), followed by any number of   *)
+(* lookups with arbitrary arguments and any number of re-configurations of the same build directory       *)
+(* (changed wrap_mode / force_fallback_for / system, persistent cache of the previous run carried over).  *)
+(* The state space is finite and closed, so sequences of every length are covered; the laws of property   *)
+(* C10 are invariants that quantify over the arguments of the *next* lookup in every reachable state.     *)
 EXTENDS DepLookup, TLC, Json, IOUtils, SequencesExt
-CONSTANTS MaxLookups, SysVersions, SubV, MainV
-VARIABLES cfg, st, n
+CONSTANTS SysVersions, SubV, MainV
+VARIABLES cfg, st
 
-vars == <<cfg, st, n>>
+vars == <<cfg, st>>
 AllConfigs == Configs(SysVersions, SubV, MainV)
-Init == cfg \in AllConfigs /\ st = PreState(cfg) /\ n = 0
-DoLookup(a) == /\ n < MaxLookups
-               /\ LET o == Lookup(cfg, st, a)
+\* the readings only matter in their corners: keep one representative elsewhere
+Canonical(c, pc) == (c.nofb = "system" => c.wm = "nofallback") /\ (c.reuse = "cached" => pc # None)
+Init == cfg \in { c \in AllConfigs : Canonical(c, None) } /\ st = PreState(cfg)
+\* any number of lookups with any arguments (the state space is finite and closed)
+DoLookup(a) == /\ LET o == Lookup(cfg, st, a)
                   IN o.res.kind # "error" /\ st' = o.st     \* an error aborts the configuration
-               /\ n' = n + 1 /\ UNCHANGED cfg
-Next == \E a \in LookupArgs : DoLookup(a)
+               /\ UNCHANGED cfg
+\* the same build directory is configured again (meson setup --reconfigure): wrap_mode, force_fallback_for
+\* and what is installed on the system may have changed; the build definition (pre, provider) is the same
+Reconfigure == \E s \in SysVersions, w \in WrapModes, f \in FFFs, r \in Readings, u \in Reuses :
+                  LET c2 == [cfg EXCEPT !.sys = s, !.wm = w, !.fff = f, !.nofb = r, !.reuse = u]
+                      pc == NextPC(st)
+                  IN Canonical(c2, pc) /\ cfg' = c2 /\ st' = PreStateWith(c2, pc)
+Next == (\E a \in LookupArgs : DoLookup(a)) \/ Reconfigure
 Spec == Init /\ [][Next]_vars
 
 Valid == { a \in LookupArgs : ValidArgs(a) }
+\* nothing reusable was left by a previous configuration of this build directory
+NoPC == st.pc = None \/ cfg.reuse = "fresh"
 O(a) == Lookup(cfg, st, a)
 
 TypeOK == /\ st.sub \in {"unconfigured", "ok", "failed"}
           /\ st.ovr.kind \in {"none", "nf", "sub", "main"}
           /\ st.cache.kind \in {"none", "sys", "sub"}
+          /\ st.pc.kind \in {"none", "sys"}
           /\ (st.ovr # None => st.cache = None)
           /\ \A a \in LookupArgs : O(a).res.kind \in {"sys", "sub", "main", "notfound", "error"}
 
@@ -47,7 +59,7 @@ ForcedNeverConsultsSystem ==
 \* ... but forcing does not apply to lookups without any fallback: they still see the system
 ForcedWithoutFallbackUsesSystem ==
     \A a \in Valid : ~CouldFallBack(a) /\ st.ovr = None /\ st.cache = None /\ cfg.sys # 0 /\ Sat(a.con, cfg.sys)
-        => O(a).res = Res("sys", cfg.sys)
+        => O(a).res = Res("sys", cfg.sys) \/ (~NoPC /\ O(a).res = st.pc)
 
 \* wrap_mode=nofallback (not overridden by force_fallback_for) never configures a subproject for a lookup
 NofallbackNeverConfigures ==
@@ -68,11 +80,12 @@ FallbackOnlyWhenNeeded ==
 SystemPreferred ==
     \A a \in Valid : ~ForceCfg(cfg) /\ st.ovr = None /\ st.cache = None /\ st.sub # "ok"
                      /\ cfg.sys # 0 /\ Sat(a.con, cfg.sys)
-        => O(a).res = Res("sys", cfg.sys) /\ O(a).st.sub = st.sub
+        => (O(a).res = Res("sys", cfg.sys) \/ (~NoPC /\ O(a).res = st.pc)) /\ O(a).st.sub = st.sub
 \* the fallback is used when the system cannot satisfy the request, a fallback exists and is not disabled
 FallbackUsedWhenSystemFails ==
     \A a \in Valid : /\ st.ovr = None /\ st.cache = None /\ st.sub = "unconfigured"
                      /\ (cfg.sys = 0 \/ ~Sat(a.con, cfg.sys))
+                     /\ (NoPC \/ ForceCfg(cfg) \/ ~Sat(a.con, st.pc.v))
                      /\ HasFallback(cfg, st, a) /\ (cfg.wm # "nofallback" \/ ForceCfg(cfg))
         => O(a).st.sub # "unconfigured"
 \* with nothing suitable a required lookup is an error and an optional one yields not-found
@@ -93,6 +106,22 @@ FirstResultSticks ==
     st.cache # None => \A a \in Valid : O(a).st = st /\ ~O(a).asked /\ (Found(O(a).res) => O(a).res = st.cache)
 \* not-found is never remembered
 NotFoundNotCached == \A a \in Valid : ~Found(O(a).res) => O(a).st.cache = st.cache
+\* ---- re-configuration of the same build directory -------------------------------------------------
+WithoutPC(a) == Lookup(cfg, [st EXCEPT !.pc = None], a)
+SamePolicy(o, f) == o.res = f.res /\ o.asked = f.asked /\ o.st = [f.st EXCEPT !.pc = st.pc]
+\* forced fallback never uses the system - nor what an earlier run found there: same table as a fresh directory
+ForcedIgnoresPersistentCache ==
+    ForceCfg(cfg) => \A a \in Valid : CouldFallBack(a) => SamePolicy(O(a), WithoutPC(a))
+\* an override made in this run beats what an earlier run found
+OverrideBeatsPersistentCache == st.ovr # None => \A a \in Valid : SamePolicy(O(a), WithoutPC(a))
+\* the only thing the persistent cache may do: answer with the positive result it holds, when that satisfies
+\* the request and nothing of this run (override, first result, forcing) says otherwise
+PersistentCacheOnlyReusesPositive ==
+    \A a \in Valid : \/ SamePolicy(O(a), WithoutPC(a))
+                      \/ /\ st.pc.kind = "sys" /\ O(a).res = st.pc /\ Sat(a.con, st.pc.v) /\ ~O(a).asked
+                         /\ st.ovr = None /\ st.cache = None /\ ~Forced(cfg, st, a) /\ O(a).st.sub = st.sub
+\* under the reading "fresh" the table of a re-configuration is the table of a fresh build directory
+FreshReadingIgnoresCache == cfg.reuse = "fresh" => \A a \in LookupArgs : SamePolicy(O(a), WithoutPC(a))
 \* both readings of the open corner agree everywhere else
 ReadingsAgreeOutsideCorner ==
     \A a \in Valid : ~OpenCorner(cfg, st, a) =>
